@@ -35,7 +35,9 @@ Inductive bnode : Type :=
 | BDifference (x y : bnode)                          (* filter_not_in: difference::<'tick,'tick> *)
 | BCrossNL (x y : bnode)                             (* cross_product_nested_loop: HydroNode::CrossProduct *)
 | BConst (v : val)                                   (* tick.singleton: SingletonSource, every tick *)
-| BFirstTick (v : val).                              (* optional_first_tick: SingletonSource, first tick only *)
+| BFirstTick (v : val)                               (* optional_first_tick: SingletonSource, first tick only *)
+| BWeakenR (x : bnode)                               (* weaken_retries::<AtLeastOnce>: Cast *)
+| BAssume (o r : bool) (x : bnode).                  (* assume_ordering/retries(_trusted): ObserveNonDet, identity in production *)
 
 (* operators of DFIR used only here *)
 Definition sort_step (_ : unit) (xs : list val) : list val * unit := (vsort xs, tt).
@@ -114,6 +116,7 @@ Fixpoint brun (n : bnode) (bs : list env) : list (list val) :=
   (* source_iter([v]) -> persist::<'static>() *)
   | BConst v => op_run LStatic [] persist_step (first_tick [v] bs)
   | BFirstTick v => first_tick [v] bs
+  | BWeakenR x | BAssume _ _ x => brun x bs
   end.
 
 (* specification: the finite-batch list function of every operator *)
@@ -149,6 +152,7 @@ Fixpoint bspec (n : bnode) (bs : list env) : list (list val) :=
   | BCrossNL x y => map (fun p => cross (fst p) (snd p)) (combine (bspec x bs) (bspec y bs))
   | BConst v => map (fun _ => [v]) bs
   | BFirstTick v => first_tick [v] bs
+  | BWeakenR x | BAssume _ _ x => bspec x bs
   end.
 
 (* the Ordering parameter as the Rust signatures compute it (since /repo 62bf4bf2be4 a join /
@@ -158,7 +162,8 @@ Fixpoint bord (n : bnode) : bool :=
   match n with
   | BBatch _ => true
   | BWeaken _ => false
-  | BMap _ x | BFilter _ x | BFlatMap _ x | BUnique x | BDefer x | BGen _ _ x => bord x
+  | BMap _ x | BFilter _ x | BFlatMap _ x | BUnique x | BDefer x | BGen _ _ x | BWeakenR x => bord x
+  | BAssume o _ _ => o
   | BChain x y | BJoin x y | BCross x y | BCrossNL x y => bord x && bord y
   | BSort _ | BEnumerate _ => true
   | BAntiJoin x _ | BCrossSingleton x _ | BDifference x _ => bord x
@@ -171,12 +176,25 @@ Fixpoint bord_before_fix (n : bnode) : bool :=
   | BJoin x _ | BCross x _ => bord_before_fix x
   | BBatch _ => true
   | BWeaken _ => false
-  | BMap _ x | BFilter _ x | BFlatMap _ x | BUnique x | BDefer x | BGen _ _ x => bord_before_fix x
+  | BMap _ x | BFilter _ x | BFlatMap _ x | BUnique x | BDefer x | BGen _ _ x | BWeakenR x => bord_before_fix x
+  | BAssume o _ _ => o
   | BChain x y | BCrossNL x y => bord_before_fix x && bord_before_fix y
   | BSort _ | BEnumerate _ => true
   | BAntiJoin x _ | BCrossSingleton x _ | BDifference x _ => bord_before_fix x
   | BFold _ _ _ | BReduce _ _ | BChainFirst _ _ | BConst _ | BFirstTick _ => true
   | BFoldKeyed _ _ _ | BReduceKeyed _ _ | BReduceKeyedWm _ _ _ => false
+  end.
+
+(* the Retries parameter (true = ExactlyOnce) *)
+Fixpoint bretry (n : bnode) : bool :=
+  match n with
+  | BBatch _ | BConst _ | BFirstTick _ => true
+  | BWeakenR _ => false
+  | BAssume _ r _ => r
+  | BWeaken x | BMap _ x | BFilter _ x | BFlatMap _ x | BUnique x | BDefer x | BGen _ _ x | BSort x
+  | BEnumerate x | BFold _ _ x | BReduce _ x | BFoldKeyed _ _ x | BReduceKeyed _ x => bretry x
+  | BChain x y | BJoin x y | BCross x y | BCrossNL x y | BChainFirst x y => bretry x && bretry y
+  | BAntiJoin x _ | BCrossSingleton x _ | BDifference x _ | BReduceKeyedWm _ x _ => bretry x
   end.
 
 Open Scope string_scope.
@@ -207,6 +225,7 @@ Fixpoint bemit (n : bnode) : list string :=
   | BCrossNL x y => "cross_join_multiset<'tick,'tick>" :: bemit x ++ bemit y
   | BConst _ => ["source_iter"; "persist<'static>"]
   | BFirstTick _ => ["source_iter"]
+  | BWeakenR x | BAssume _ _ x => bemit x
   end.
 Close Scope string_scope.
 
@@ -300,6 +319,7 @@ Fixpoint bspec_o (sigma : list val -> list val) (n : bnode) (bs : list env) : li
   | BCrossNL x y => map (fun p => cross (fst p) (snd p)) (combine (bspec_o sigma x bs) (bspec_o sigma y bs))
   | BConst v => map (fun _ => [v]) bs
   | BFirstTick v => first_tick [v] bs
+  | BWeakenR x | BAssume _ _ x => bspec_o sigma x bs
   end.
 
 (* what the staged API demands of order-sensitive operators (IsOrdered bounds, commutativity
@@ -307,7 +327,10 @@ Fixpoint bspec_o (sigma : list val -> list val) (n : bnode) (bs : list env) : li
 Fixpoint bwf (n : bnode) : Prop :=
   match n with
   | BBatch _ | BConst _ | BFirstTick _ => True
-  | BWeaken x | BMap _ x | BFilter _ x | BFlatMap _ x | BUnique x | BDefer x | BSort x => bwf x
+  | BWeaken x | BMap _ x | BFilter _ x | BFlatMap _ x | BUnique x | BDefer x | BSort x | BWeakenR x => bwf x
+  (* an assumption is admitted by the determinism theorem only if it does not strengthen the
+     ordering (trusted strengthenings are the call sites of C32) *)
+  | BAssume o _ x => (o = true -> bord x = true) /\ bwf x
   | BChain x y | BJoin x y | BCross x y | BAntiJoin x y | BDifference x y | BCrossNL x y => bwf x /\ bwf y
   | BEnumerate x | BGen _ _ x | BFoldKeyed _ _ x | BReduceKeyed _ x => bord x = true /\ bwf x
   | BCrossSingleton x s => bord s = true /\ bwf x /\ bwf s
@@ -343,9 +366,58 @@ Definition chk_kinds_s (l : list (snode * (bool * (bool * bool)))) : N :=
                        Bool.eqb (kbound n) (fst (snd e)) && Bool.eqb (ord n) (fst (snd (snd e)))
                        && Bool.eqb (kretry n) (snd (snd (snd e)))) l
   then 0%N else 1%N.
-(* inside a tick everything is Bounded; ExactlyOnce except under an explicit retry cast (skipped) *)
+(* inside a tick everything is Bounded; Ordering and Retries as judged by [bord] / [bretry] *)
 Definition chk_kinds_b (l : list (bnode * (bool * (bool * bool)))) : N :=
   if forallb (fun e => let n := fst e in
                        Bool.eqb true (fst (snd e)) && Bool.eqb (bord n) (fst (snd (snd e)))
-                       && Bool.eqb true (snd (snd (snd e)))) l
+                       && Bool.eqb (bretry n) (snd (snd (snd e)))) l
   then 0%N else 1%N.
+
+(* ------------------------------------------------------------------ network links (correspondence)
+   The harness runs the sender location(s) and the receiver location as separate dataflows and
+   moves the sender's messages to the receiver's network input itself. *)
+Fixpoint rebatch (l : list val) (ks : list nat) : list (list val) :=
+  match ks with [] => [] | k :: r => firstn k l :: rebatch (skipn k l) r end.
+Definition port_env (xs : list val) : env := fun i => match i with O => xs | _ => [] end.
+
+(* one-to-one ordered link: sender program [s], receiver program [r] reading the link as input 0;
+   receiver tick i gets the next k_i messages.  bit0: what each sender tick sent and what each
+   receiver tick emitted are the model's; bit1: the conclusion of C28_network_o2o_deterministic on
+   the implementation (the receiver's whole output is the denotation of the delivered prefix) *)
+Definition chk_net_o2o (s r : snode) (ticksA : list (list (list val))) (ks : list nat)
+  (sentT implOut : list (list val)) : N :=
+  let bsA := map mkenv ticksA in
+  let sent := run_s s bsA in
+  let bsB := map port_env (rebatch (concat sent) ks) in
+  verdict (ticks_agree true sentT sent && ticks_agree (ord r) implOut (run_s r bsB))
+          (equiv_b (ord r) (concat implOut)
+             (den_s r (port_env (firstn (fold_right plus 0%nat ks) (den_s s (flat bsA)))))).
+
+(* many-to-one: per-sender FIFO queues, the receiver tick takes the next message of each listed
+   member, tagged with the member id *)
+Fixpoint pop_at (i : nat) (qs : list (list val)) : option val * list (list val) :=
+  match qs, i with
+  | [], _ => (None, [])
+  | q :: r, O => match q with [] => (None, qs) | x :: q' => (Some x, q' :: r) end
+  | q :: r, S j => let (o, r') := pop_at j r in (o, q :: r')
+  end.
+Fixpoint deliver_tick (sched : list nat) (qs : list (list val)) : list val * list (list val) :=
+  match sched with
+  | [] => ([], qs)
+  | m :: r => let (o, qs1) := pop_at m qs in
+              let (l, qs2) := deliver_tick r qs1 in
+              (match o with Some x => VP (VN (N.of_nat m)) x :: l | None => l end, qs2)
+  end.
+Fixpoint deliver_all (scheds : list (list nat)) (qs : list (list val)) : list (list val) :=
+  match scheds with
+  | [] => []
+  | sc :: r => let (l, qs') := deliver_tick sc qs in l :: deliver_all r qs'
+  end.
+(* bit1 = C29 keyed statement: every member's value is the fold of that member's own delivered
+   subsequence, whatever the cross-member interleaving and the tick partition *)
+Definition chk_net_m2o (s : snode) (a : anode) (members : list (list val)) (scheds : list (list nat))
+  (sentM implOut : list (list val)) : N :=
+  let sent := map (fun xs => den_s s (port_env xs)) members in
+  let bsB := map port_env (deliver_all scheds sent) in
+  verdict (ticks_agree true sentM sent && ticks_agree (aexact a) implOut (run_a a bsB))
+          (C29_holds_b (FA a) bsB implOut).
